@@ -31,6 +31,18 @@ What is modelled (read from /repo/src/rtflite at the time of writing):
 
 Colours are identified by their master index in `color_table` (1..657); `0` stands for `""` and
 `"black"`, which the code short-cuts to index 0 before looking at any context.
+
+Which cell is a `ContextVar`?  What makes the colour context `Local` is not the class of the
+variable but the discipline of its use: every encode *binds* the variable (`.set(value)`), so the
+binding lives in the calling thread's context, and the default (`None`) is immutable.  A
+`ContextVar("…", default={})` that is never `.set()` and whose default object is *mutated in
+place* (`var.get().clear()`, `var.get()[k] = v`) is the opposite case: `.get()` hands every thread
+the one default object, so the container is one cell per process — an instance of `Shared.cell` /
+`CtxMode.Global`, with `clear()` ↦ `Ev.clearCtx`, the first fill ↦ `Ev.setCtx`, a read ↦
+`Ev.lookup` (`memoProg` below).  Such a memo that is reset at the start of each use rather than
+cleared at the end is exact under sequential use (`Props.C15.C15_global_sequential_reset`) and
+breaks under a single preemption (`Props.C15.C15_shared_default_memo_interferes`).  The check
+classifies every `ContextVar` of the package on every run (harness/props/c15.py, cell classes).
 -/
 namespace Model.Interleave
 
@@ -220,6 +232,17 @@ def cellAfter : Option Palette → List Ev → Option Palette
   | c, .lookup _ :: es => cellAfter c es
   | c, .emit _ :: es => cellAfter c es
 
+/-- the program never reads the colour cell before it has written it itself (`set` or `clear`
+first): its lookups do not depend on what earlier users left in a process-wide cell -/
+def opensWithReset : List Ev → Bool
+  | [] => true
+  | .setCtx _ :: _ => true
+  | .clearCtx :: _ => true
+  | .lookup _ :: _ => false
+  | .register _ _ :: es => opensWithReset es
+  | .getStrategy _ :: es => opensWithReset es
+  | .emit _ :: es => opensWithReset es
+
 /-- the schedule without any preemption: thread `k`, `k+1`, … each run to completion in turn -/
 def seqScheduleFrom : Nat → List (List Ev) → List Nat
   | _, [] => []
@@ -239,5 +262,12 @@ per section one registry read, the lookups, clear (used for non-vacuity and witn
 def encodeProg (palette : Palette) (strategies : List Name) (lookups : List Color) : List Ev :=
   [.register 0 0, .register 1 1, .register 2 2, .setCtx palette]
     ++ strategies.map .getStrategy ++ lookups.map .lookup ++ [.clearCtx]
+
+/-- a memo of values resolved once per section, as events on one cell: forget what the previous
+section left (`clear`), the first use resolves and stores the section's own values (`set`), every
+use (`uses` of them) reads what the cell holds; nothing is cleared at the end.  `resolved` stands
+for the stored values, the index of `key` in it for what a use obtains. -/
+def memoProg (resolved : Palette) (key : Color) (uses : Nat) : List Ev :=
+  [.clearCtx, .setCtx resolved] ++ List.replicate uses (.lookup key)
 
 end Model.Interleave
